@@ -114,8 +114,16 @@ func checkC04With(t tokenizers.ITokenizer, c c04Case) *evid.Fail {
 		return nil
 	}
 	var strs, strs2 []string
-	var stream []tk
+	var stream, rewound []tk
 	if f := guard(func() {
+		// the caller's own scanner object: handed over, one token peeked, rewound by the caller, handed over again
+		sc := rio.NewStringScanner(c.Input)
+		t.SetReader(sc)
+		t.HasNextToken()
+		sc.Reset()
+		for _, x := range t.TokenizeStream(sc) {
+			rewound = append(rewound, tk{x.Type(), x.Value(), x.Line(), x.Column()})
+		}
 		strs = t.TokenizeBufferToStrings(c.Input)
 		strs2 = t.TokenizeStreamToStrings(rio.NewStringScanner(c.Input))
 		for _, x := range t.TokenizeStream(rio.NewStringScanner(c.Input)) {
@@ -126,6 +134,9 @@ func checkC04With(t tokenizers.ITokenizer, c c04Case) *evid.Fail {
 	}
 	if strings.Join(strs, "\x00") != sb.String()+"" && strings.Join(strs, "") != want {
 		return evid.F("tokenizebuffertostrings-differs", "TokenizeBufferToStrings(%q) = %q", c.Input, strs)
+	}
+	if tksString(rewound) != tksString(toks) {
+		return evid.F("entry-points-differ:rewound-scanner", "input %q: NextToken loop %s ; the same scanner object rewound after a peek and tokenized again %s", c.Input, tksString(toks), tksString(rewound))
 	}
 	if len(strs) != len(toks) || len(strs2) != len(toks) || tksString(stream) != tksString(toks) {
 		return evid.F("entry-points-differ", "input %q: NextToken loop %s ; TokenizeStream %s ; ToStrings %q / %q", c.Input, tksString(toks), tksString(stream), strs, strs2)
@@ -190,6 +201,11 @@ func TestC04_Exhaustive(t *testing.T) {
 
 // genTokInput draws an input string of up to maxLen symbols, weighted towards the alphabet of
 // significant characters, with a trigger forced at the end in a third of the cases.
+// the random part also writes whole lexemes: keywords and section words in every letter case, identifiers, numbers
+// in every notation, multi-character symbols, comment and tag delimiters (a state may normalise what it recognises)
+var c04RapidAlphabet = append(append([]string{}, c04Alphabet...), "and", "And", "AND", "oR", "not", "Not", "is", "Is", "null", "Null", "like", "LiKe", "in", "In", "xor", "true", "True", "false",
+	"if", "If", "unless", "abc", "x_1", "Zürich", "ǅ", "ſ", "ı", "1e5", "2.5E-3", "1E+2", "0x1F", "007", "<=", "<>", "<<", "!=", ">=", ">>", "{{", "}}", "{{{", "}}}", "/*", "*/", "//", "''", "\"\"", "\r\n", "\n\r", ";", "|")
+
 func genTokInput(t *rapid.T, alphabet []string, maxLen int) string {
 	n := rapid.IntRange(0, maxLen).Draw(t, "len")
 	if rapid.IntRange(0, 15).Draw(t, "long") == 0 {
@@ -269,7 +285,7 @@ func TestC04_Rapid(t *testing.T) {
 	rec := evid.New("C04", "TestC04_Rapid", "C04", c04Rule+"; rapid strings of up to 64 symbols")
 	defer finish(t, rec)
 	runRapid(t, pick(30000, 250000), 4, func(rt *rapid.T) {
-		c := c04Case{rapid.SampledFrom(tokKindsExt).Draw(rt, "tok"), genTokInput(rt, c04Alphabet, 64)}
+		c := c04Case{rapid.SampledFrom(tokKindsExt).Draw(rt, "tok"), genTokInput(rt, c04RapidAlphabet, 64)}
 		if c04Record(rec, c) {
 			rt.Fatalf("C04 violated for %+v", c)
 		}
